@@ -1,40 +1,60 @@
-(* Proofs/PathCache.v — invariants of the Path cache model (property C16).
+(* Proofs/PathCache.v — invariants of the Path cache model (property C16), for
+   every setting of the repair flags [fx : fixes] (fx_pinned = the pinned code).
 
-   Inv t s  :=  ends coherent  /\  every segment cache, when filled, holds the
-                value of its own key for tolerance t  /\  the path cache is
-                empty or describes the current control data for tolerance t.
+   The tolerances that occur in a history are described by a boolean predicate
+   Tb (T t := Tb t = true), under three hypotheses
+     HR : two tolerances of T that pass the cubic reuse test give the same value
+     HA : the arc cache compares tolerances (fx_arc), or T has one element
+     HC : _calc_lengths compares tolerances (fx_calc), or T has one element
+   Instances (Props/C16.v): T = {t0} — no hypothesis left, any flags — and
+   T = everything — needs fx_arc, fx_calc and a sound cubic reuse test.
+
+   Inv s  :=  ends coherent (and _closed = False unless fx_hash)
+              /\ every segment cache, when filled, holds the value of its own key
+                 for its own tolerance, which is in T
+              /\ the path cache is empty or describes the current control data
+                 for the tolerance it remembers, which is in T.
 
    Main results (any history length, by induction over the event list):
-     inv_fresh         Inv t (fresh l)            when the segments carry no cache
-     inv_step          Inv t s -> safe_op s o  -> Inv t (fst (step s o))
-     inv_obs           Inv t s -> safe_q t q   -> Inv t (fst (obs s q))
+     inv_fresh         Inv (fresh l)            when the segments carry no cache
+     inv_step          Inv s -> safe_op s o  -> Inv (fst (step s o))
+     inv_obs           Inv s -> safe_q q     -> Inv (fst (obs s q))
      obs_determined    two Inv-states with the same control data answer alike
-     fresh_equiv       Inv t s -> safe_q t q -> snd (obs s q) = snd (obs (fresh_of s) q)
+     fresh_equiv       Inv s -> safe_q q -> snd (obs s q) = snd (obs (fresh_of s) q)
      reachable         Inv along every safe history
-   and the same for the weaker InvEnds (start/end/_closed only), which survives
-   the start/end setters and mixed tolerances. *)
+   [safe_op] depends on the flags: a repaired operation is never excluded.
+   The same for the weaker InvEnds (start/end/_closed only). *)
 From Coq Require Import ZArith List Bool Lia.
 From SVP Require Import Model.PathCache.
 Import ListNotations.
 
 Section Proofs.
   Context {pt pay tol V : Type}.
+  Variable fx : fixes.
   Variable pt_eqb : pt -> pt -> bool.
   Variable pt_falsy : pt -> bool.
   Variable pay_eqb : pay -> pay -> bool.
   Variable tol_reuse : tol -> tol -> bool.
+  Variable tol_eqb : tol -> tol -> bool.
   Variable t_def : tol.
   Variable len_of : @sdata pt pay -> tol -> V.
   Variables vzero vone : V.
   Variables vadd vsub vdiv : V -> V -> V.
   Variables v_eqb v_geb : V -> V -> bool.
-  Variable tol_eqb : tol -> tol -> bool.
 
   (* Python's `==` on the stored values is taken to identify them (signed
      zeros / NaN control points are outside the model) *)
   Hypothesis pt_eqb_eq : forall a b, pt_eqb a b = true -> a = b.
   Hypothesis pay_eqb_eq : forall a b, pay_eqb a b = true -> a = b.
   Hypothesis tol_eqb_eq : forall a b, tol_eqb a b = true -> a = b.
+
+  (* the tolerances in play *)
+  Variable Tb : tol -> bool.
+  Notation T t := (Tb t = true).
+  Definition Single : Prop := forall a b, T a -> T b -> a = b.
+  Hypothesis HR : forall c t d, T c -> T t -> tol_reuse c t = true -> len_of d c = len_of d t.
+  Hypothesis HA : fx_arc fx = true \/ Single.
+  Hypothesis HC : fx_calc fx = true \/ Single.
 
   Notation sdata := (@sdata pt pay).
   Notation seg := (@seg pt pay tol V).
@@ -43,12 +63,19 @@ Section Proofs.
   Notation query := (@query pt pay tol V).
   Notation event := (@event pt pay tol V).
   Notation sdata_eqb := (sdata_eqb pt_eqb pay_eqb).
-  Notation seg_length := (seg_length pt_eqb pay_eqb tol_reuse len_of).
-  Notation calc_lengths := (calc_lengths pt_eqb pay_eqb tol_reuse len_of vzero vadd vdiv v_eqb).
-  Notation step := (step pt_eqb pay_eqb).
-  Notation obs := (obs pt_eqb pt_falsy pay_eqb tol_reuse t_def len_of vzero vone vadd vsub vdiv v_eqb v_geb).
-  Notation step_ev := (step_ev pt_eqb pt_falsy pay_eqb tol_reuse t_def len_of vzero vone vadd vsub vdiv v_eqb v_geb).
-  Notation run := (run pt_eqb pt_falsy pay_eqb tol_reuse t_def len_of vzero vone vadd vsub vdiv v_eqb v_geb).
+  Notation seg_length := (seg_length fx pt_eqb pay_eqb tol_reuse tol_eqb len_of).
+  Notation calc_lengths := (calc_lengths fx pt_eqb pay_eqb tol_reuse tol_eqb len_of vzero vadd vdiv v_eqb).
+  Notation fill_lengths := (fill_lengths fx pt_eqb pay_eqb tol_reuse tol_eqb len_of vzero vadd vdiv v_eqb).
+  Notation step := (step fx pt_eqb pay_eqb).
+  Notation obs := (obs fx pt_eqb pt_falsy pay_eqb tol_reuse tol_eqb t_def len_of vzero vone vadd vsub vdiv v_eqb v_geb).
+  Notation step_ev := (step_ev fx pt_eqb pt_falsy pay_eqb tol_reuse tol_eqb t_def len_of vzero vone vadd vsub vdiv v_eqb v_geb).
+  Notation run := (run fx pt_eqb pt_falsy pay_eqb tol_reuse tol_eqb t_def len_of vzero vone vadd vsub vdiv v_eqb v_geb).
+  Notation after_set := (after_set fx).
+  Notation setitem := (setitem fx).
+  Notation insert := (insert fx).
+  Notation append := (append fx).
+  Notation extend := (extend fx).
+  Notation reverse := (reverse fx).
   Notation fractions := (fractions vzero vadd vdiv v_eqb).
   Notation vsum := (vsum vzero vadd).
 
@@ -63,10 +90,10 @@ Section Proofs.
   Qed.
 
   (* ------------------------------------------------ segment caches *)
-  Definition SegOK (t : tol) (g : seg) : Prop :=
+  Definition SegOK (g : seg) : Prop :=
     match scache g with
     | None => True
-    | Some c => ctol c = t /\ cval c = len_of (ckey c) t
+    | Some c => T (ctol c) /\ cval c = len_of (ckey c) (ctol c)
     end.
 
   Lemma seg_length_sd : forall g t, sd (fst (seg_length g t)) = sd g.
@@ -76,67 +103,81 @@ Section Proofs.
       match goal with |- context [if ?b then _ else _] => destruct b end; simpl; auto.
   Qed.
 
-  Lemma seg_length_ok : forall t g, SegOK t g ->
-      snd (seg_length g t) = len_of (sd g) t /\ SegOK t (fst (seg_length g t)).
+  Lemma seg_length_ok : forall t g, SegOK g -> T t ->
+      snd (seg_length g t) = len_of (sd g) t /\ SegOK (fst (seg_length g t)).
   Proof.
-    intros t g H. unfold PathCache.seg_length, compute.
+    intros t g H Tt. unfold PathCache.seg_length, compute.
     destruct (skind (sd g)); simpl; auto.
-    - unfold SegOK in H. destruct (scache g) as [c|] eqn:E.
+    - (* cubic *)
+      unfold SegOK in H. destruct (scache g) as [c|] eqn:E.
       + destruct (sdata_eqb (ckey c) (sd g)) eqn:K; simpl.
-        * destruct (tol_reuse (ctol c) t); simpl.
-          -- destruct H as [Ht Hv]. apply sdata_eqb_eq in K. split; [rewrite Hv, K; reflexivity|].
-             unfold SegOK. rewrite E. auto.
+        * destruct (tol_reuse (ctol c) t) eqn:R; simpl.
+          -- destruct H as [Ht Hv]. apply sdata_eqb_eq in K. split.
+             ++ rewrite Hv, K. apply HR; auto.
+             ++ unfold SegOK. rewrite E. auto.
           -- split; auto. unfold SegOK; simpl; auto.
         * split; auto. unfold SegOK; simpl; auto.
       + simpl. split; auto. unfold SegOK; simpl; auto.
-    - unfold SegOK in H. destruct (scache g) as [c|] eqn:E.
+    - (* arc *)
+      unfold SegOK in H. destruct (scache g) as [c|] eqn:E.
       + destruct (sdata_eqb (ckey c) (sd g)) eqn:K; simpl.
-        * destruct H as [Ht Hv]. apply sdata_eqb_eq in K. split; [rewrite Hv, K; reflexivity|].
-          unfold SegOK. rewrite E. auto.
+        * destruct (negb (fx_arc fx) || tol_eqb (ctol c) t) eqn:R; simpl.
+          -- destruct H as [Ht Hv]. apply sdata_eqb_eq in K.
+             assert (Et : ctol c = t).
+             { destruct HA as [A|A].
+               - rewrite A in R. simpl in R. apply tol_eqb_eq; auto.
+               - apply A; auto. }
+             split; [rewrite Hv, K, Et; reflexivity|]. unfold SegOK. rewrite E. auto.
+          -- split; auto. unfold SegOK; simpl; auto.
         * split; auto. unfold SegOK; simpl; auto.
       + simpl. split; auto. unfold SegOK; simpl; auto.
   Qed.
 
-  Lemma SegOK_clear : forall t g, SegOK t (clear_cache g).
+  Lemma SegOK_clear : forall g, SegOK (clear_cache g).
   Proof. intros; unfold SegOK; simpl; auto. Qed.
-  Lemma SegOK_with_start : forall t g z, SegOK t g -> SegOK t (with_start g z).
-  Proof. intros t g z H; unfold SegOK, with_start in *; simpl; auto. Qed.
-  Lemma SegOK_with_end : forall t g z, SegOK t g -> SegOK t (with_end g z).
-  Proof. intros t g z H; unfold SegOK, with_end in *; simpl; auto. Qed.
+  Lemma SegOK_with_start : forall g z, SegOK g -> SegOK (with_start g z).
+  Proof. intros g z H; unfold SegOK, with_start in *; simpl; auto. Qed.
+  Lemma SegOK_with_end : forall g z, SegOK g -> SegOK (with_end g z).
+  Proof. intros g z H; unfold SegOK, with_end in *; simpl; auto. Qed.
 
   (* the segment-level statement: whatever was done to the control data of a
-     segment whose cache is OK for t, length at t is the fresh answer *)
-  Lemma segment_fresh : forall t g, SegOK t g ->
+     segment whose cache is OK, length at a tolerance of T is the fresh answer *)
+  Lemma segment_fresh : forall t g, SegOK g -> T t ->
       snd (seg_length g t) = snd (seg_length (clear_cache g) t).
   Proof.
-    intros t g H. destruct (seg_length_ok t g H) as [E _].
-    destruct (seg_length_ok t (clear_cache g) (SegOK_clear t g)) as [E' _].
+    intros t g H Tt. destruct (seg_length_ok t g H Tt) as [E _].
+    destruct (seg_length_ok t (clear_cache g) (SegOK_clear g) Tt) as [E' _].
     rewrite E, E'. reflexivity.
   Qed.
 
   (* --------------------------------------------------- invariants *)
   Definition vals_of (t : tol) (l : list sdata) : list V := map (fun d => len_of d t) l.
-  Definition InvLen (t : tol) (s : state) : Prop :=
+  Definition InvLen (s : state) : Prop :=
     match plength s with
     | None => True
-    | Some L => L = vsum (vals_of t (sds s)) /\ plengths s = fractions (vals_of t (sds s))
+    | Some L => exists t, ptol s = Some t /\ T t /\ L = vsum (vals_of t (sds s))
+                          /\ plengths s = fractions (vals_of t (sds s))
     end.
   Definition InvEnds (s : state) : Prop :=
-    pstart s = first_start (segs s) /\ pend s = last_end (segs s) /\ pclosed s = false.
-  Definition InvSegs (t : tol) (s : state) : Prop := Forall (SegOK t) (segs s).
-  Definition Inv (t : tol) (s : state) : Prop := InvEnds s /\ InvSegs t s /\ InvLen t s.
+    pstart s = first_start (segs s) /\ pend s = last_end (segs s)
+    /\ (fx_hash fx = true \/ pclosed s = false).
+  Definition InvSegs (s : state) : Prop := Forall SegOK (segs s).
+  Definition Inv (s : state) : Prop := InvEnds s /\ InvSegs s /\ InvLen s.
 
   Definition no_cache (g : seg) : bool := match scache g with None => true | Some _ => false end.
-  Lemma no_cache_ok : forall t g, no_cache g = true -> SegOK t g.
-  Proof. intros t g; unfold no_cache, SegOK; destruct (scache g); [discriminate|auto]. Qed.
-  Lemma forallb_no_cache : forall t l, forallb no_cache l = true -> Forall (SegOK t) l.
+  Lemma no_cache_ok : forall g, no_cache g = true -> SegOK g.
+  Proof. intros g; unfold no_cache, SegOK; destruct (scache g); [discriminate|auto]. Qed.
+  Lemma forallb_no_cache : forall l, forallb no_cache l = true -> Forall SegOK l.
   Proof.
-    induction l; simpl; intros; constructor.
-    - apply no_cache_ok. apply andb_true_iff in H; tauto.
-    - apply IHl. apply andb_true_iff in H; tauto.
+    intros l E. apply Forall_forall. intros g Hin. apply no_cache_ok.
+    rewrite forallb_forall in E. apply E. exact Hin.
   Qed.
 
-  Lemma inv_fresh : forall t l, Forall (SegOK t) l -> Inv t (fresh l).
+  Lemma inv_fresh : forall l, Forall SegOK l -> Inv (fresh l).
+  Proof. intros; repeat split; simpl; auto. Qed.
+  (* a parsed path may carry _closed = True: harmless once the hash ignores it *)
+  Lemma inv_fresh_closed : forall l c, Forall SegOK l -> fx_hash fx = true \/ c = false ->
+      Inv (fresh_closed l c).
   Proof. intros; repeat split; simpl; auto. Qed.
 
   (* ---- list facts *)
@@ -179,95 +220,6 @@ Section Proofs.
   Lemma splice_ins_nonempty : forall lo hi (g : seg) ins l, splice lo hi (g :: ins) l <> [].
   Proof. intros; unfold splice. destruct (firstn lo l); simpl; discriminate. Qed.
 
-  (* ---- the two tails *)
-  Lemma after_set_inv : forall t s l, Inv t s -> Forall (SegOK t) l -> l <> [] ->
-      Inv t (fst (after_set s l)) /\ snd (after_set s l) = ROk.
-  Proof.
-    intros t s l [[_ [_ Hc]] _] Hl Hne. unfold after_set.
-    destruct (first_start l) eqn:E.
-    - simpl. repeat split; simpl; auto.
-    - apply first_start_none in E. contradiction.
-  Qed.
-  Lemma after_del_inv : forall t s l, Inv t s -> Forall (SegOK t) l -> Inv t (after_del s l).
-  Proof. intros t s l [[_ [_ Hc]] _] Hl. repeat split; simpl; auto. Qed.
-
-  Lemma setitem_inv : forall t s i g, Inv t s -> SegOK t g -> Inv t (fst (setitem s i g)).
-  Proof.
-    intros t s i g H Hg. unfold setitem. destruct (norm_index (length (segs s)) i) eqn:E; simpl; auto.
-    apply after_set_inv; auto.
-    - apply Forall_set_nth; auto. apply H.
-    - apply set_nth_nonempty. eapply norm_index_lt; eauto.
-  Qed.
-  Lemma delitem_inv : forall t s i, Inv t s -> Inv t (fst (delitem s i)).
-  Proof.
-    intros t s i H. unfold delitem. destruct (norm_index (length (segs s)) i); simpl; auto.
-    apply after_del_inv; auto. apply Forall_del_nth. apply H.
-  Qed.
-  Lemma insert_inv : forall t s i g, Inv t s -> SegOK t g -> Inv t (fst (insert s i g)).
-  Proof.
-    intros t s i g H Hg. unfold insert. apply after_set_inv; auto.
-    - apply Forall_splice; auto. apply H.
-    - apply splice_ins_nonempty.
-  Qed.
-  Lemma extend_inv : forall t gs s, Inv t s -> Forall (SegOK t) gs -> Inv t (fst (extend s gs)).
-  Proof.
-    induction gs; intros s H Hg; simpl; auto.
-    inversion Hg; subst.
-    pose proof (insert_inv t s (Z.of_nat (length (segs s))) a H H2) as Hi.
-    unfold append. destruct (insert s (Z.of_nat (length (segs s))) a) as [s' r]; simpl in *.
-    destruct r; simpl; auto.
-  Qed.
-  Lemma nth_error_ok : forall t (l : list seg) k g, Forall (SegOK t) l -> nth_error l k = Some g -> SegOK t g.
-  Proof.
-    intros t l k g H E. rewrite Forall_forall in H. apply H. eapply nth_error_In; eauto.
-  Qed.
-  Lemma reverse_inv : forall t s, Inv t s -> Inv t (fst (reverse s)).
-  Proof.
-    intros t s H. unfold reverse.
-    generalize (seq 0 (Nat.div (length (segs s)) 2)). generalize (length (segs s)) as n.
-    intros n l. assert (G : Inv t (fst (s, @ROk pt pay))) by exact H.
-    revert G. generalize (s, @ROk pt pay) as acc. induction l; intros acc G; simpl; auto.
-    apply IHl. destruct acc as [s0 r0]; simpl in *. destruct r0; simpl; auto.
-    destruct (nth_error (segs s0) (n - a - 1)) eqn:E1; simpl; auto.
-    destruct (nth_error (segs s0) a) eqn:E2; simpl; auto.
-    assert (O1 : SegOK t s1) by (eapply nth_error_ok; [apply G|eauto]).
-    assert (O2 : SegOK t s2) by (eapply nth_error_ok; [apply G|eauto]).
-    pose proof (setitem_inv t s0 (Z.of_nat a) s1 G O1) as G1.
-    destruct (setitem s0 (Z.of_nat a) s1) as [s' r']; simpl in *.
-    destruct r'; simpl; auto. apply setitem_inv; auto.
-  Qed.
-
-  (* ---- which operations keep the invariant: exactly those that do not hit
-          one of the defects of the pinned code *)
-  Definition op_args_fresh (o : op) : bool :=
-    match o with
-    | SetItem _ g | Insert _ g | Append g => no_cache g
-    | SetSlice _ _ gs | Extend gs => forallb no_cache gs
-    | _ => true
-    end.
-  Definition is_nil {A} (l : list A) : bool := match l with [] => true | _ => false end.
-  Definition is_none {A} (o : option A) : bool := match o with None => true | _ => false end.
-  Definition safe_op (s : state) (o : op) : bool :=
-    op_args_fresh o &&
-    match o with
-    | SetSlice a b gs =>       (* `path[a:b] = gs` must not empty the path (IndexError after mutation) *)
-        let '(lo, hi) := slice_bounds (length (segs s)) a b in
-        negb (is_nil (splice lo hi gs (segs s)))
-    | SetStart _ | SetEnd _ => (* the setters keep _length: only safe while nothing is cached;
-                                  on an empty path they leave a _start/_end a fresh Path has not *)
-        negb (is_nil (segs s)) && is_none (plength s)
-    | _ => true
-    end.
-  (* weaker: enough for start / end / len / == / hash / d / bbox *)
-  Definition safe_op_ends (s : state) (o : op) : bool :=
-    match o with
-    | SetSlice a b gs =>
-        let '(lo, hi) := slice_bounds (length (segs s)) a b in
-        negb (is_nil (splice lo hi gs (segs s)))
-    | SetStart _ | SetEnd _ => negb (is_nil (segs s))
-    | _ => true
-    end.
-
   Lemma last_cons_default : forall {A} (l : list A) (a d : A), last (a :: l) d = last l a.
   Proof. induction l; intros; simpl; auto. destruct l; auto. simpl in IHl. apply (IHl a0 d). Qed.
   Lemma last_end_cons : forall (a : seg) l, l <> [] -> last_end (a :: l) = last_end l.
@@ -301,15 +253,132 @@ Section Proofs.
     rewrite (last_end_cons (with_start g z) (b :: r)), (last_end_cons g (b :: r)) by discriminate.
     reflexivity.
   Qed.
-
-  Lemma inv_step : forall t s o, Inv t s -> safe_op s o = true -> Inv t (fst (step s o)).
+  (* ---- the two tails *)
+  Lemma after_set_inv : forall s l, Inv s -> Forall SegOK l -> l <> [] \/ fx_slice fx = true ->
+      Inv (fst (after_set s l)).
   Proof.
-    intros t s o H S. unfold safe_op in S. apply andb_true_iff in S. destruct S as [Sf S].
+    intros s l [[_ [_ Hc]] _] Hl Hne. unfold PathCache.after_set.
+    destruct (first_start l) eqn:E.
+    - simpl. repeat split; simpl; auto.
+    - apply first_start_none in E. destruct Hne as [N|F]; [contradiction|].
+      rewrite F. subst l. repeat split; simpl; auto.
+  Qed.
+  Lemma after_del_inv : forall s l, Inv s -> Forall SegOK l -> Inv (after_del s l).
+  Proof. intros s l [[_ [_ Hc]] _] Hl. repeat split; simpl; auto. Qed.
+
+  Lemma setitem_inv : forall s i g, Inv s -> SegOK g -> Inv (fst (setitem s i g)).
+  Proof.
+    intros s i g H Hg. unfold PathCache.setitem.
+    destruct (norm_index (length (segs s)) i) eqn:E; simpl; auto.
+    apply after_set_inv; auto.
+    - apply Forall_set_nth; auto. apply H.
+    - left. apply set_nth_nonempty. eapply norm_index_lt; eauto.
+  Qed.
+  Lemma delitem_inv : forall s i, Inv s -> Inv (fst (delitem s i)).
+  Proof.
+    intros s i H. unfold delitem. destruct (norm_index (length (segs s)) i); simpl; auto.
+    apply after_del_inv; auto. apply Forall_del_nth. apply H.
+  Qed.
+  Lemma insert_inv : forall s i g, Inv s -> SegOK g -> Inv (fst (insert s i g)).
+  Proof.
+    intros s i g H Hg. unfold PathCache.insert. apply after_set_inv; auto.
+    - apply Forall_splice; auto. apply H.
+    - left. apply splice_ins_nonempty.
+  Qed.
+  Lemma extend_inv : forall gs s, Inv s -> Forall SegOK gs -> Inv (fst (extend s gs)).
+  Proof.
+    induction gs; intros s H Hg; simpl; auto.
+    inversion Hg; subst.
+    pose proof (insert_inv s (Z.of_nat (length (segs s))) a H H2) as Hi.
+    unfold PathCache.append. destruct (insert s (Z.of_nat (length (segs s))) a) as [s' r]; simpl in *.
+    destruct r; simpl; auto.
+  Qed.
+  Lemma nth_error_ok : forall (l : list seg) k g, Forall SegOK l -> nth_error l k = Some g -> SegOK g.
+  Proof.
+    intros l k g H E. rewrite Forall_forall in H. apply H. eapply nth_error_In; eauto.
+  Qed.
+  Lemma reverse_inv : forall s, Inv s -> Inv (fst (reverse s)).
+  Proof.
+    intros s H. unfold PathCache.reverse.
+    generalize (seq 0 (Nat.div (length (segs s)) 2)). generalize (length (segs s)) as n.
+    intros n l. assert (G : Inv (fst (s, @ROk pt pay))) by exact H.
+    revert G. generalize (s, @ROk pt pay) as acc. induction l; intros acc G; simpl; auto.
+    apply IHl. destruct acc as [s0 r0]; simpl in *. destruct r0; simpl; auto.
+    destruct (nth_error (segs s0) (n - a - 1)) eqn:E1; simpl; auto.
+    destruct (nth_error (segs s0) a) eqn:E2; simpl; auto.
+    assert (O1 : SegOK s1) by (eapply nth_error_ok; [apply G|eauto]).
+    assert (O2 : SegOK s2) by (eapply nth_error_ok; [apply G|eauto]).
+    pose proof (setitem_inv s0 (Z.of_nat a) s1 G O1) as G1.
+    destruct (setitem s0 (Z.of_nat a) s1) as [s' r']; simpl in *.
+    destruct r'; simpl; auto. apply setitem_inv; auto.
+  Qed.
+
+  (* ---- which operations keep the invariant: all, except those that hit a
+          defect that the flags say is NOT repaired *)
+  Definition op_args_fresh (o : op) : bool :=
+    match o with
+    | SetItem _ g | Insert _ g | Append g => no_cache g
+    | SetSlice _ _ gs | Extend gs => forallb no_cache gs
+    | _ => true
+    end.
+  Definition is_nil {A} (l : list A) : bool := match l with [] => true | _ => false end.
+  Definition is_none {A} (o : option A) : bool := match o with None => true | _ => false end.
+  Definition safe_op (s : state) (o : op) : bool :=
+    op_args_fresh o &&
+    match o with
+    | SetSlice a b gs =>       (* pinned: `path[a:b] = gs` must not empty the path (IndexError after mutation) *)
+        let '(lo, hi) := slice_bounds (length (segs s)) a b in
+        fx_slice fx || negb (is_nil (splice lo hi gs (segs s)))
+    | SetStart _ | SetEnd _ => (* pinned: the setters keep _length: only safe while nothing is cached;
+                                  (not repaired) on an empty path they leave a _start/_end a fresh Path has not *)
+        negb (is_nil (segs s)) && (fx_setter fx || is_none (plength s))
+    | _ => true
+    end.
+  (* weaker: enough for start / end / len / == / hash / d / bbox *)
+  Definition safe_op_ends (s : state) (o : op) : bool :=
+    match o with
+    | SetSlice a b gs =>
+        let '(lo, hi) := slice_bounds (length (segs s)) a b in
+        fx_slice fx || negb (is_nil (splice lo hi gs (segs s)))
+    | SetStart _ | SetEnd _ => negb (is_nil (segs s))
+    | _ => true
+    end.
+  (* what is left of [safe_op] once the setters and slice assignment are repaired *)
+  Definition safe_op_repaired (s : state) (o : op) : bool :=
+    op_args_fresh o &&
+    match o with
+    | SetStart _ | SetEnd _ => negb (is_nil (segs s))
+    | _ => true
+    end.
+  Lemma safe_op_repaired_safe : fx_setter fx = true -> fx_slice fx = true ->
+      forall s o, safe_op_repaired s o = true -> safe_op s o = true.
+  Proof.
+    intros F1 F2 s o H. unfold safe_op_repaired in H. unfold safe_op.
+    apply andb_true_iff in H. destruct H as [H1 H2]. rewrite H1. simpl.
+    destruct o; auto.
+    - destruct (slice_bounds (length (segs s)) a b). rewrite F2. reflexivity.
+    - rewrite F1, H2. reflexivity.
+    - rewrite F1, H2. reflexivity.
+  Qed.
+
+  Lemma setter_length_inv : forall s : state,
+      negb (is_nil (segs s)) && (fx_setter fx || is_none (plength s)) = true ->
+      setter_length fx s = None.
+  Proof.
+    intros s H. apply andb_true_iff in H. destruct H as [H1 H2]. unfold setter_length.
+    destruct (segs s); [discriminate|]. destruct (fx_setter fx); auto.
+    simpl in H2. destruct (plength s); [discriminate|reflexivity].
+  Qed.
+
+  Lemma inv_step : forall s o, Inv s -> safe_op s o = true -> Inv (fst (step s o)).
+  Proof.
+    intros s o H S. unfold safe_op in S. apply andb_true_iff in S. destruct S as [Sf S].
     destruct o; simpl in *.
     - apply setitem_inv; auto. apply no_cache_ok; auto.
-    - unfold setslice, slice_bounds. apply after_set_inv; auto.
+    - unfold PathCache.setslice, slice_bounds. apply after_set_inv; auto.
       + apply Forall_splice; [apply H|]. apply forallb_no_cache; auto.
-      + match type of S with negb (is_nil ?l) = true => destruct l end; [discriminate S|discriminate].
+      + destruct (fx_slice fx); [right; reflexivity|left]. simpl in S.
+        match type of S with negb (is_nil ?l) = true => destruct l end; [discriminate S|discriminate].
     - apply insert_inv; auto. apply no_cache_ok; auto.
     - apply insert_inv; auto. apply no_cache_ok; auto.
     - apply extend_inv; auto. apply forallb_no_cache; auto.
@@ -318,36 +387,38 @@ Section Proofs.
       apply after_del_inv; auto. apply Forall_splice; [apply H|constructor].
     - unfold pop. destruct (norm_index (length (segs s)) i) eqn:E; simpl; auto.
       destruct (nth_error (segs s) n); simpl; auto.
-      pose proof (delitem_inv t s i H) as Hd.
+      pose proof (delitem_inv s i H) as Hd.
       destruct (delitem s i) as [s' r]; simpl in *. destruct r; simpl; auto.
     - apply reverse_inv; auto.
     - unfold remove. destruct (index_of pt_eqb pay_eqb (sd g) (segs s) 0); simpl; auto.
       apply delitem_inv; auto.
-    - apply andb_true_iff in S. destruct S as [Sn Sl].
+    - pose proof (setter_length_inv s S) as SL.
+      apply andb_true_iff in S. destruct S as [Sn _].
       destruct H as [[Hs [He Hc]] [Hg Hl]]. unfold InvSegs in Hg.
       destruct (segs s) as [|g r] eqn:E; [discriminate|].
       repeat split; simpl; auto.
       + rewrite He. symmetry. apply last_end_cons_with_start.
       + unfold InvSegs; simpl. inversion Hg; subst. constructor; auto using SegOK_with_start.
-      + unfold InvLen; simpl. destruct (plength s); [discriminate|auto].
-    - apply andb_true_iff in S. destruct S as [Sn Sl].
+      + unfold InvLen; simpl. rewrite SL. exact I.
+    - pose proof (setter_length_inv s S) as SL.
+      apply andb_true_iff in S. destruct S as [Sn _].
       destruct H as [[Hs [He Hc]] [Hg Hl]]. unfold InvSegs in Hg.
       assert (Hne : segs s <> []) by (destruct (segs s); [discriminate|discriminate]).
       repeat split; simpl; auto.
       + rewrite Hs. symmetry. apply map_last_first_start'.
       + symmetry. apply map_last_last_end; auto.
       + unfold InvSegs; simpl. apply Forall_map_last; auto using SegOK_with_end.
-      + unfold InvLen; simpl. destruct (plength s); [discriminate|auto].
+      + unfold InvLen; simpl. rewrite SL. exact I.
   Qed.
 
   (* ---------------------------------------------------------- queries *)
-  Lemma map_seg_length_spec : forall t l, Forall (SegOK t) l ->
+  Lemma map_seg_length_spec : forall t l, T t -> Forall SegOK l ->
       map snd (map (fun g => seg_length g t) l) = vals_of t (map sd l)
       /\ map sd (map fst (map (fun g => seg_length g t) l)) = map sd l
-      /\ Forall (SegOK t) (map fst (map (fun g => seg_length g t) l)).
+      /\ Forall SegOK (map fst (map (fun g => seg_length g t) l)).
   Proof.
-    induction 1; simpl; [repeat split; constructor|].
-    destruct IHForall as [A [B C]]. destruct (seg_length_ok t x H) as [E O].
+    intros t l Tt. induction 1; simpl; [repeat split; constructor|].
+    destruct IHForall as [A [B C]]. destruct (seg_length_ok t x H Tt) as [E O].
     rewrite A, B, E, seg_length_sd. repeat split; auto.
   Qed.
   Lemma map_seg_length_sd : forall t (l : list seg),
@@ -369,34 +440,57 @@ Section Proofs.
   Lemma last_end_same_sds : forall l1 l2 : list seg, map sd l1 = map sd l2 -> last_end l1 = last_end l2.
   Proof. intros; rewrite !last_end_sds; congruence. Qed.
 
-  Lemma calc_spec : forall t s, Inv t s ->
-      let s' := calc_lengths t s in
-      Inv t s' /\ sds s' = sds s
+
+  Lemma fill_spec : forall t s, InvEnds s -> InvSegs s -> T t ->
+      let s' := fill_lengths t s in
+      Inv s' /\ sds s' = sds s
       /\ plength s' = Some (vsum (vals_of t (sds s)))
       /\ plengths s' = fractions (vals_of t (sds s))
       /\ pstart s' = pstart s /\ pend s' = pend s /\ pclosed s' = pclosed s.
   Proof.
-    intros t s H. unfold PathCache.calc_lengths. destruct (plength s) eqn:E.
-    - simpl. destruct H as [He [Hg Hl]]. unfold InvLen in Hl. rewrite E in Hl. destruct Hl as [L1 L2].
-      repeat split; auto; try apply He. unfold InvLen. rewrite E; auto. congruence.
-    - destruct H as [[Hs [He Hc]] [Hg Hl]].
-      destruct (map_seg_length_spec t (segs s) Hg) as [A [B C]].
-      unfold sds; simpl. rewrite A, B.
-      repeat split; simpl; auto.
-      + rewrite Hs. apply first_start_same_sds. auto.
-      + rewrite He. apply last_end_same_sds. auto.
-      + unfold sds; simpl. rewrite B. reflexivity.
-      + unfold sds; simpl. rewrite B. reflexivity.
+    intros t s [Hs [He Hc]] Hg Tt. unfold PathCache.fill_lengths.
+    destruct (map_seg_length_spec t (segs s) Tt Hg) as [A [B C]].
+    unfold sds; simpl. rewrite A, B.
+    repeat split; simpl; auto.
+    - rewrite Hs. apply first_start_same_sds. auto.
+    - rewrite He. apply last_end_same_sds. auto.
+    - unfold InvLen; simpl. exists t. unfold sds; simpl. rewrite B. auto.
   Qed.
+  Lemma calc_spec : forall t s, Inv s -> T t ->
+      let s' := calc_lengths t s in
+      Inv s' /\ sds s' = sds s
+      /\ plength s' = Some (vsum (vals_of t (sds s)))
+      /\ plengths s' = fractions (vals_of t (sds s))
+      /\ pstart s' = pstart s /\ pend s' = pend s /\ pclosed s' = pclosed s.
+  Proof.
+    intros t s H Tt. unfold PathCache.calc_lengths. destruct (plength s) eqn:E.
+    - destruct (fx_calc fx && negb (tol_is tol_eqb (ptol s) t)) eqn:F.
+      + apply fill_spec; auto; apply H.
+      + pose proof H as [He [Hg Hl]]. unfold InvLen in Hl. rewrite E in Hl.
+        destruct Hl as [t' [P1 [P2 [L1 L2]]]].
+        assert (Et : t' = t).
+        { destruct HC as [C|C].
+          - rewrite C in F. simpl in F. rewrite P1 in F. simpl in F.
+            apply negb_false_iff in F. apply tol_eqb_eq; auto.
+          - apply C; auto. }
+        subst t'. simpl. split; [exact H|]. split; [reflexivity|].
+        split; [congruence|]. split; [exact L2|]. auto.
+    - apply fill_spec; auto; apply H.
+  Qed.
+  Lemma fill_sds : forall t s, sds (fill_lengths t s) = sds s.
+  Proof. intros t s. unfold PathCache.fill_lengths, sds; simpl. apply map_seg_length_sd. Qed.
   Lemma calc_sds : forall t s, sds (calc_lengths t s) = sds s.
   Proof.
-    intros t s. unfold PathCache.calc_lengths. destruct (plength s); auto.
-    unfold sds; simpl. apply map_seg_length_sd.
+    intros t s. unfold PathCache.calc_lengths. destruct (plength s); [|apply fill_sds].
+    destruct (fx_calc fx && negb (tol_is tol_eqb (ptol s) t)); [apply fill_sds|reflexivity].
   Qed.
   Lemma calc_ends : forall t s,
       pstart (calc_lengths t s) = pstart s /\ pend (calc_lengths t s) = pend s
       /\ pclosed (calc_lengths t s) = pclosed s.
-  Proof. intros t s. unfold PathCache.calc_lengths. destruct (plength s); simpl; auto. Qed.
+  Proof.
+    intros t s. unfold PathCache.calc_lengths. destruct (plength s); simpl; auto.
+    destruct (fx_calc fx && negb (tol_is tol_eqb (ptol s) t)); simpl; auto.
+  Qed.
 
   Lemma start_prop_id : forall s : state, InvEnds s -> start_prop pt_falsy s = (s, pstart s).
   Proof.
@@ -409,10 +503,11 @@ Section Proofs.
     destruct (last_end (segs s)) eqn:E; auto. rewrite He. destruct s; simpl in *. subst. reflexivity.
   Qed.
 
-  Definition safe_q (t : tol) (q : query) : bool :=
+  (* the tolerance a query hands to _calc_lengths must be one of T *)
+  Definition safe_q (q : query) : bool :=
     match q with
-    | QLength t' => tol_eqb t' t              (* one tolerance throughout ... *)
-    | QPoint _ | QT2t _ => tol_eqb t_def t   (* ... which is the default when point / T2t are used *)
+    | QLength t' => Tb t'
+    | QPoint _ | QT2t _ => Tb t_def
     | _ => true
     end.
 
@@ -422,23 +517,21 @@ Section Proofs.
     unfold sds in D. repeat split.
     - rewrite A, Hs. symmetry. apply first_start_same_sds; auto.
     - rewrite B, He. symmetry. apply last_end_same_sds; auto.
-    - congruence.
+    - rewrite C. exact Hc.
   Qed.
 
-  Lemma inv_obs : forall t s q, Inv t s -> safe_q t q = true ->
-      Inv t (fst (obs s q)) /\ sds (fst (obs s q)) = sds s.
+  Lemma inv_obs : forall s q, Inv s -> safe_q q = true ->
+      Inv (fst (obs s q)) /\ sds (fst (obs s q)) = sds s.
   Proof.
-    intros t s q H S. pose proof H as [He _]. destruct q; simpl in *; auto.
+    intros s q H S. pose proof H as [He _]. destruct q; simpl in *; auto.
     - rewrite (start_prop_id s He). simpl; auto.
     - rewrite (end_prop_id s He). simpl; auto.
-    - apply tol_eqb_eq in S; subst t0. destruct (calc_spec t s H) as [A [B _]]. split; auto.
-    - apply tol_eqb_eq in S; subst t.
-      destruct (sds s) eqn:E; simpl; auto.
+    - destruct (calc_spec t s H S) as [A [B _]]. split; auto.
+    - destruct (sds s) eqn:E; simpl; auto.
       destruct (v_eqb pos vzero); simpl; auto. destruct (v_eqb pos vone); simpl; auto.
-      destruct (calc_spec t_def s H) as [A [B _]]. split; [exact A|congruence].
-    - apply tol_eqb_eq in S; subst t.
-      destruct (v_eqb T vone); simpl; auto. destruct (v_eqb T vzero); simpl; auto.
-      destruct (calc_spec t_def s H) as [A [B _]]. split; auto.
+      destruct (calc_spec t_def s H S) as [A [B _]]. split; [exact A|congruence].
+    - destruct (v_eqb T vone); simpl; auto. destruct (v_eqb T vzero); simpl; auto.
+      destruct (calc_spec t_def s H S) as [A [B _]]. split; [exact A|congruence].
     - destruct (segs s) eqn:E; simpl; auto. destruct use_closed_attrib; simpl; auto.
       destruct (iscontinuous pt_eqb (sds s)); simpl; auto.
       rewrite (start_prop_id s He). rewrite (end_prop_id s He). simpl; auto.
@@ -450,39 +543,44 @@ Section Proofs.
   Lemma length_sds : forall s : state, length (segs s) = length (sds s).
   Proof. intros; unfold sds; rewrite map_length; reflexivity. Qed.
 
+
+  Lemma hash_flag_same : forall s1 s2 : state, InvEnds s1 -> InvEnds s2 ->
+      (if fx_hash fx then false else pclosed s1) = (if fx_hash fx then false else pclosed s2).
+  Proof.
+    intros s1 s2 [_ [_ A]] [_ [_ B]]. destruct (fx_hash fx); auto.
+    destruct A as [A|A]; [discriminate|]. destruct B as [B|B]; [discriminate|]. congruence.
+  Qed.
+
   (* two states that both satisfy the invariant and carry the same control
      data give the same answer to every (tolerance-compatible) query *)
-  Lemma obs_determined : forall t s1 s2 q, Inv t s1 -> Inv t s2 -> sds s1 = sds s2 ->
-      safe_q t q = true -> snd (obs s1 q) = snd (obs s2 q).
+  Lemma obs_determined : forall s1 s2 q, Inv s1 -> Inv s2 -> sds s1 = sds s2 ->
+      safe_q q = true -> snd (obs s1 q) = snd (obs s2 q).
   Proof.
-    intros t s1 s2 q H1 H2 E S.
+    intros s1 s2 q H1 H2 E S.
     pose proof H1 as [E1 _]. pose proof H2 as [E2 _].
     assert (Ps : pstart s1 = pstart s2).
     { destruct E1 as [A _], E2 as [B _]. rewrite A, B. apply first_start_same_sds. exact E. }
     assert (Pe : pend s1 = pend s2).
     { destruct E1 as [_ [A _]], E2 as [_ [B _]]. rewrite A, B. apply last_end_same_sds. exact E. }
-    assert (Pc : pclosed s1 = pclosed s2).
-    { destruct E1 as [_ [_ A]], E2 as [_ [_ B]]. congruence. }
     destruct q; simpl in *.
     - rewrite !length_sds, E. reflexivity.
     - rewrite (start_prop_id s1 E1), (start_prop_id s2 E2). simpl. congruence.
     - rewrite (end_prop_id s1 E1), (end_prop_id s2 E2). simpl. congruence.
-    - apply tol_eqb_eq in S; subst t0.
-      destruct (calc_spec t s1 H1) as [_ [_ [A _]]]. destruct (calc_spec t s2 H2) as [_ [_ [B _]]].
+    - destruct (calc_spec t s1 H1 S) as [_ [_ [A _]]]. destruct (calc_spec t s2 H2 S) as [_ [_ [B _]]].
       rewrite A, B, E. reflexivity.
-    - apply tol_eqb_eq in S; subst t. rewrite <- E.
+    - rewrite <- E.
       destruct (sds s1) eqn:D; simpl; auto.
       destruct (v_eqb pos vzero); simpl; auto. destruct (v_eqb pos vone); simpl; auto.
-      destruct (calc_spec t_def s1 H1) as [_ [A1 [_ [A2 _]]]].
-      destruct (calc_spec t_def s2 H2) as [_ [B1 [_ [B2 _]]]].
+      destruct (calc_spec t_def s1 H1 S) as [_ [A1 [_ [A2 _]]]].
+      destruct (calc_spec t_def s2 H2 S) as [_ [B1 [_ [B2 _]]]].
       rewrite A1, B1, A2, B2, <- E, D. reflexivity.
-    - apply tol_eqb_eq in S; subst t. rewrite !length_sds, E.
+    - rewrite !length_sds, E.
       destruct (v_eqb T vone); simpl; auto. destruct (v_eqb T vzero); simpl; auto.
-      destruct (calc_spec t_def s1 H1) as [_ [A1 [_ [A2 _]]]].
-      destruct (calc_spec t_def s2 H2) as [_ [B1 [_ [B2 _]]]].
+      destruct (calc_spec t_def s1 H1 S) as [_ [A1 [_ [A2 _]]]].
+      destruct (calc_spec t_def s2 H2 S) as [_ [B1 [_ [B2 _]]]].
       rewrite A2, B2, E. reflexivity.
     - rewrite E. reflexivity.
-    - rewrite E, Pc. reflexivity.
+    - rewrite E, (hash_flag_same s1 s2 E1 E2). reflexivity.
     - destruct (segs s1) eqn:D1; destruct (segs s2) eqn:D2.
       + reflexivity.
       + apply segs_nil_sds in D1. rewrite E in D1. apply segs_nil_sds in D1. congruence.
@@ -500,74 +598,93 @@ Section Proofs.
 
   Lemma map_sd_clear : forall l : list seg, map sd (map clear_cache l) = map sd l.
   Proof. induction l; simpl; congruence. Qed.
-  Lemma inv_fresh_of : forall t (s : state), Inv t (fresh_of s) /\ sds (fresh_of s) = sds s.
+  Lemma inv_fresh_of : forall (s : state), Inv (fresh_of s) /\ sds (fresh_of s) = sds s.
   Proof.
-    intros t s. split.
+    intros s. split.
     - apply inv_fresh. apply Forall_forall. intros g Hin. apply in_map_iff in Hin.
       destruct Hin as [g0 [Hg _]]. subst. apply SegOK_clear.
     - unfold fresh_of, sds; simpl. apply map_sd_clear.
   Qed.
-  Lemma inv_fresh_same : forall t (s : state), Inv t s -> Inv t (fresh_same s).
-  Proof. intros t s H. apply inv_fresh. apply H. Qed.
+  Lemma inv_fresh_same : forall (s : state), Inv s -> Inv (fresh_same s).
+  Proof. intros s H. apply inv_fresh. apply H. Qed.
 
-  Theorem fresh_equiv : forall t s q, Inv t s -> safe_q t q = true ->
+  Theorem fresh_equiv : forall s q, Inv s -> safe_q q = true ->
       snd (obs s q) = snd (obs (fresh_of s) q).
   Proof.
-    intros t s q H S. destruct (inv_fresh_of t s) as [A B].
-    apply (obs_determined t); auto.
+    intros s q H S. destruct (inv_fresh_of s) as [A B].
+    apply obs_determined; auto.
   Qed.
-  Theorem fresh_same_equiv : forall t s q, Inv t s -> safe_q t q = true ->
+  Theorem fresh_same_equiv : forall s q, Inv s -> safe_q q = true ->
       snd (obs s q) = snd (obs (fresh_same s) q).
   Proof.
-    intros t s q H S. apply (obs_determined t); auto. apply inv_fresh_same; auto.
+    intros s q H S. apply obs_determined; auto. apply inv_fresh_same; auto.
   Qed.
 
   (* ---------------------------------------------------------- histories *)
-  Definition safe_ev (t : tol) (s : state) (e : event) : bool :=
-    match e with EOp o => safe_op s o | EQ q => safe_q t q end.
-  Fixpoint safe_hist (t : tol) (s : state) (evs : list event) : bool :=
+  Definition safe_ev (s : state) (e : event) : bool :=
+    match e with EOp o => safe_op s o | EQ q => safe_q q end.
+  Fixpoint safe_hist (s : state) (evs : list event) : bool :=
     match evs with
     | [] => true
-    | e :: r => safe_ev t s e && safe_hist t (fst (step_ev s e)) r
+    | e :: r => safe_ev s e && safe_hist (fst (step_ev s e)) r
     end.
 
-  Lemma inv_step_ev : forall t s e, Inv t s -> safe_ev t s e = true -> Inv t (fst (step_ev s e)).
+  Lemma inv_step_ev : forall s e, Inv s -> safe_ev s e = true -> Inv (fst (step_ev s e)).
   Proof.
-    intros t s e H S. destruct e; simpl in *.
-    - pose proof (inv_step t s o H S). destruct (step s o); auto.
-    - pose proof (inv_obs t s q H S) as [A _]. destruct (obs s q); auto.
+    intros s e H S. destruct e; simpl in *.
+    - pose proof (inv_step s o H S). destruct (step s o); auto.
+    - pose proof (inv_obs s q H S) as [A _]. destruct (obs s q); auto.
   Qed.
-  Theorem reachable : forall t evs s, Inv t s -> safe_hist t s evs = true -> Inv t (run s evs).
+  Theorem reachable : forall evs s, Inv s -> safe_hist s evs = true -> Inv (run s evs).
   Proof.
     induction evs; intros s H S; simpl in *; auto.
     apply andb_true_iff in S. destruct S as [S1 S2].
     apply IHevs; auto. apply inv_step_ev; auto.
   Qed.
-  Theorem history_fresh_equiv : forall t l evs q,
-      forallb no_cache l = true -> safe_hist t (fresh l) evs = true -> safe_q t q = true ->
+  Theorem history_fresh_equiv : forall l evs q,
+      forallb no_cache l = true -> safe_hist (fresh l) evs = true -> safe_q q = true ->
       snd (obs (run (fresh l) evs) q) = snd (obs (fresh_of (run (fresh l) evs)) q).
   Proof.
-    intros. apply (fresh_equiv t); auto. apply reachable; auto.
+    intros. apply fresh_equiv; auto. apply reachable; auto.
     apply inv_fresh. apply forallb_no_cache; auto.
   Qed.
+
+  (* histories whose only restrictions are the ones that no repair removes:
+     inserted segments are fresh objects, setters are applied to a non-empty path *)
+  Definition safe_ev_repaired (s : state) (e : event) : bool :=
+    match e with EOp o => safe_op_repaired s o | EQ q => safe_q q end.
+  Fixpoint safe_hist_repaired (s : state) (evs : list event) : bool :=
+    match evs with
+    | [] => true
+    | e :: r => safe_ev_repaired s e && safe_hist_repaired (fst (step_ev s e)) r
+    end.
+  Lemma safe_hist_repaired_safe : fx_setter fx = true -> fx_slice fx = true ->
+      forall evs s, safe_hist_repaired s evs = true -> safe_hist s evs = true.
+  Proof.
+    intros F1 F2. induction evs; intros s H; simpl in *; auto.
+    apply andb_true_iff in H. destruct H as [H1 H2]. rewrite (IHevs _ H2), andb_true_r.
+    destruct a; simpl in *; auto. apply safe_op_repaired_safe; auto.
+  Qed.
+
   (* ------------------------------------------------------------------
      The weaker invariant InvEnds (start / end / _closed coherent) survives
      the start / end setters, mixed tolerances and cached segments: every
      query that does not read _length/_lengths is fresh-equivalent after any
-     history that avoids only `path[a:b] = []` emptying the path and a setter
-     applied to an empty path. *)
-  Lemma after_set_ends : forall s l, InvEnds s -> l <> [] -> InvEnds (fst (after_set s l)).
+     history that avoids only (unless repaired) `path[a:b] = []` emptying the
+     path, and a setter applied to an empty path. *)
+  Lemma after_set_ends : forall s l, InvEnds s -> l <> [] \/ fx_slice fx = true -> InvEnds (fst (after_set s l)).
   Proof.
-    intros s l [_ [_ Hc]] Hne. unfold after_set. destruct (first_start l) eqn:E.
+    intros s l [_ [_ Hc]] Hne. unfold PathCache.after_set. destruct (first_start l) eqn:E.
     - repeat split; simpl; auto.
-    - apply first_start_none in E. contradiction.
+    - apply first_start_none in E. destruct Hne as [N|F]; [contradiction|].
+      rewrite F. subst l. repeat split; simpl; auto.
   Qed.
   Lemma after_del_ends : forall s l, InvEnds s -> InvEnds (after_del s l).
   Proof. intros s l [_ [_ Hc]]. repeat split; simpl; auto. Qed.
   Lemma setitem_ends : forall s i g, InvEnds s -> InvEnds (fst (setitem s i g)).
   Proof.
-    intros s i g H. unfold setitem. destruct (norm_index (length (segs s)) i) eqn:E; simpl; auto.
-    apply after_set_ends; auto. apply set_nth_nonempty. eapply norm_index_lt; eauto.
+    intros s i g H. unfold PathCache.setitem. destruct (norm_index (length (segs s)) i) eqn:E; simpl; auto.
+    apply after_set_ends; auto. left. apply set_nth_nonempty. eapply norm_index_lt; eauto.
   Qed.
   Lemma delitem_ends : forall s i, InvEnds s -> InvEnds (fst (delitem s i)).
   Proof.
@@ -575,17 +692,17 @@ Section Proofs.
     apply after_del_ends; auto.
   Qed.
   Lemma insert_ends : forall s i g, InvEnds s -> InvEnds (fst (insert s i g)).
-  Proof. intros s i g H. unfold insert. apply after_set_ends; auto. apply splice_ins_nonempty. Qed.
+  Proof. intros s i g H. unfold PathCache.insert. apply after_set_ends; auto. left. apply splice_ins_nonempty. Qed.
   Lemma extend_ends : forall gs s, InvEnds s -> InvEnds (fst (extend s gs)).
   Proof.
     induction gs; intros s H; simpl; auto.
     pose proof (insert_ends s (Z.of_nat (length (segs s))) a H) as Hi.
-    unfold append. destruct (insert s (Z.of_nat (length (segs s))) a) as [s' r]; simpl in *.
+    unfold PathCache.append. destruct (insert s (Z.of_nat (length (segs s))) a) as [s' r]; simpl in *.
     destruct r; simpl; auto.
   Qed.
   Lemma reverse_ends : forall s, InvEnds s -> InvEnds (fst (reverse s)).
   Proof.
-    intros s H. unfold reverse.
+    intros s H. unfold PathCache.reverse.
     generalize (seq 0 (Nat.div (length (segs s)) 2)). generalize (length (segs s)) as n.
     intros n l. assert (G : InvEnds (fst (s, @ROk pt pay))) by exact H.
     revert G. generalize (s, @ROk pt pay) as acc. induction l; intros acc G; simpl; auto.
@@ -601,7 +718,8 @@ Section Proofs.
   Proof.
     intros s o H S. destruct o; simpl in *.
     - apply setitem_ends; auto.
-    - unfold setslice, slice_bounds. apply after_set_ends; auto.
+    - unfold PathCache.setslice, slice_bounds. apply after_set_ends; auto.
+      destruct (fx_slice fx); [right; reflexivity|left]. simpl in S.
       match type of S with negb (is_nil ?l) = true => destruct l end; [discriminate S|discriminate].
     - apply insert_ends; auto.
     - apply insert_ends; auto.
@@ -659,14 +777,12 @@ Section Proofs.
     { destruct E1 as [A _], E2 as [B _]. rewrite A, B. apply first_start_same_sds. exact E. }
     assert (Pe : pend s1 = pend s2).
     { destruct E1 as [_ [A _]], E2 as [_ [B _]]. rewrite A, B. apply last_end_same_sds. exact E. }
-    assert (Pc : pclosed s1 = pclosed s2).
-    { destruct E1 as [_ [_ A]], E2 as [_ [_ B]]. congruence. }
     destruct q; simpl in *; try discriminate.
     - rewrite !length_sds, E. reflexivity.
     - rewrite (start_prop_id s1 E1), (start_prop_id s2 E2). simpl. congruence.
     - rewrite (end_prop_id s1 E1), (end_prop_id s2 E2). simpl. congruence.
     - rewrite E. reflexivity.
-    - rewrite E, Pc. reflexivity.
+    - rewrite E, (hash_flag_same s1 s2 E1 E2). reflexivity.
     - destruct (segs s1) eqn:D1; destruct (segs s2) eqn:D2.
       + reflexivity.
       + apply segs_nil_sds in D1. rewrite E in D1. apply segs_nil_sds in D1. congruence.
@@ -683,7 +799,9 @@ Section Proofs.
   Qed.
 
   Lemma ends_fresh : forall l : list seg, InvEnds (fresh l).
-  Proof. intros; repeat split. Qed.
+  Proof. intros; repeat split; simpl; auto. Qed.
+  Lemma ends_fresh_closed : forall (l : list seg) c, fx_hash fx = true \/ c = false -> InvEnds (fresh_closed l c).
+  Proof. intros; repeat split; simpl; auto. Qed.
   Lemma ends_fresh_of : forall s : state, InvEnds (fresh_of s) /\ sds (fresh_of s) = sds s.
   Proof. intros s. split; [apply ends_fresh|]. unfold fresh_of, sds; simpl. apply map_sd_clear. Qed.
 
@@ -710,37 +828,81 @@ Section Proofs.
   Qed.
 
   (* a syntactic sufficient condition, independent of the state: no setter, no
-     slice assignment of an empty list, inserted segments are fresh, one
-     tolerance *)
+     slice assignment of an empty list (unless repaired), inserted segments are
+     fresh, tolerances in T *)
   Definition avoids_op (o : op) : bool :=
     op_args_fresh o &&
     match o with
-    | SetSlice _ _ [] => false
+    | SetSlice _ _ [] => fx_slice fx
     | SetStart _ | SetEnd _ => false
     | _ => true
     end.
-  Definition avoids (t : tol) (e : event) : bool :=
-    match e with EOp o => avoids_op o | EQ q => safe_q t q end.
+  Definition avoids (e : event) : bool :=
+    match e with EOp o => avoids_op o | EQ q => safe_q q end.
   Lemma splice_ins_not_nil : forall lo hi (g : seg) ins l,
       negb (is_nil (splice lo hi (g :: ins) l)) = true.
   Proof.
     intros. pose proof (splice_ins_nonempty lo hi g ins l) as N.
     destruct (splice lo hi (g :: ins) l); [exfalso; apply N; reflexivity|reflexivity].
   Qed.
-  Lemma avoids_safe : forall t s e, avoids t e = true -> safe_ev t s e = true.
+  Lemma avoids_safe : forall s e, avoids e = true -> safe_ev s e = true.
   Proof.
-    intros t s e H. destruct e; simpl in *; auto.
+    intros s e H. destruct e; simpl in *; auto.
     unfold avoids_op in H. unfold safe_op. apply andb_true_iff in H. destruct H as [H1 H2].
     rewrite H1. simpl. destruct o; auto; try discriminate.
-    destruct gs; [discriminate|]. unfold slice_bounds. apply splice_ins_not_nil.
+    unfold slice_bounds. destruct gs.
+    - rewrite H2. reflexivity.
+    - rewrite splice_ins_not_nil. apply orb_true_r.
   Qed.
-  Lemma avoids_hist : forall t evs s, forallb (avoids t) evs = true -> safe_hist t s evs = true.
+  Lemma avoids_hist : forall evs s, forallb avoids evs = true -> safe_hist s evs = true.
   Proof.
     induction evs; intros s H; simpl in *; auto.
-    apply andb_true_iff in H. destruct H as [H1 H2]. rewrite (avoids_safe t s a H1). simpl. auto.
+    apply andb_true_iff in H. destruct H as [H1 H2]. rewrite (avoids_safe s a H1). simpl. auto.
   Qed.
-  Theorem history_fresh_equiv_syntactic : forall t l evs q,
-      forallb no_cache l = true -> forallb (avoids t) evs = true -> safe_q t q = true ->
+  Theorem history_fresh_equiv_syntactic : forall l evs q,
+      forallb no_cache l = true -> forallb avoids evs = true -> safe_q q = true ->
       snd (obs (run (fresh l) evs) q) = snd (obs (fresh_of (run (fresh l) evs)) q).
-  Proof. intros. apply (history_fresh_equiv t); auto. apply avoids_hist; auto. Qed.
+  Proof. intros. apply history_fresh_equiv; auto. apply avoids_hist; auto. Qed.
+
+  (* ---- per-repair statements: the operation is never excluded *)
+  Lemma nonempty_not_nil : forall l : list seg, l <> [] -> negb (is_nil l) = true.
+  Proof. destruct l; [contradiction|reflexivity]. Qed.
+  Theorem inv_setter_repaired : fx_setter fx = true ->
+      forall s z, Inv s -> segs s <> [] ->
+      Inv (fst (step s (SetStart z))) /\ Inv (fst (step s (SetEnd z))).
+  Proof.
+    intros F s z H N. split; apply inv_step; auto; unfold safe_op; simpl;
+      rewrite (nonempty_not_nil _ N), F; reflexivity.
+  Qed.
+  Theorem inv_setslice_repaired : fx_slice fx = true ->
+      forall s a b gs, Inv s -> forallb no_cache gs = true -> Inv (fst (step s (SetSlice a b gs))).
+  Proof.
+    intros F s a b gs H G. apply inv_step; auto. unfold safe_op; simpl. rewrite G. simpl.
+    destruct (slice_bounds (length (segs s)) a b). rewrite F. reflexivity.
+  Qed.
+  Theorem hash_repaired : fx_hash fx = true ->
+      forall (l : list seg) c, snd (obs (fresh_closed l c) QHash) = snd (obs (fresh l) QHash).
+  Proof. intros F l c. simpl. rewrite F. reflexivity. Qed.
+  Theorem history_fresh_equiv_repaired : fx_setter fx = true -> fx_slice fx = true ->
+      forall l evs q, forallb no_cache l = true -> safe_hist_repaired (fresh l) evs = true -> safe_q q = true ->
+      snd (obs (run (fresh l) evs) q) = snd (obs (fresh_of (run (fresh l) evs)) q).
+  Proof. intros F1 F2 l evs q A B C. apply history_fresh_equiv; auto. apply safe_hist_repaired_safe; auto. Qed.
 End Proofs.
+
+(* the two tolerance disciplines *)
+Section Disciplines.
+  Context {tol V D : Type}.
+  Variable tol_eqb : tol -> tol -> bool.
+  Hypothesis tol_eqb_eq : forall a b, tol_eqb a b = true -> a = b.
+  (* one tolerance t0 throughout *)
+  Definition Tb_one (t0 t : tol) : bool := tol_eqb t t0.
+  Lemma single_one : forall t0, Single (Tb_one t0).
+  Proof.
+    intros t0 a b A B. unfold Tb_one in *. apply tol_eqb_eq in A. apply tol_eqb_eq in B. congruence.
+  Qed.
+  Lemma reuse_ok_one : forall t0 (tol_reuse : tol -> tol -> bool) (len_of : D -> tol -> V) c t d,
+      Tb_one t0 c = true -> Tb_one t0 t = true -> tol_reuse c t = true -> len_of d c = len_of d t.
+  Proof. intros t0 r len_of c t d A B _. rewrite (single_one t0 c t A B). reflexivity. Qed.
+  (* any tolerances *)
+  Definition Tb_any (t : tol) : bool := true.
+End Disciplines.
